@@ -40,8 +40,12 @@ def rand_cell(rng, system):
     if system == "Monoclinic":
         be = rng.uniform(60, 130)
         return (a, b, c, be), (a, b, c, 90, be, 90)
+    lookalike = rng.random() < 0.3       # a general cell whose numbers look like another system's (a == b, an angle of exactly 120 or 90)
     while True:
         al, be, ga = (rng.uniform(50, 130) for _ in range(3))
+        if lookalike:
+            b = a
+            al, be, ga = rng.choice([(120.0, be, ga), (al, 120.0, ga), (90.0, 90.0, ga), (120.0, 90.0, ga), (90.0, be, 90.0 + 1e-3)])
         ca, cb, cg = (cos(radians(x)) for x in (al, be, ga))
         if 1 + 2 * ca * cb * cg - ca * ca - cb * cb - cg * cg > 0.05:
             return (a, b, c, al, be, ga), (a, b, c, al, be, ga)
@@ -218,6 +222,10 @@ def oracle(ctx, widen=1):
                 else:
                     h1 = np.array([ctx.rng.randint(-3, 3), ctx.rng.randint(-3, 3), ctx.rng.randint(1, 3)], float)
                     h2 = np.array([ctx.rng.randint(1, 3), ctx.rng.randint(-3, 3), ctx.rng.randint(-3, 3)], float)
+                    if ctx.rng.random() < 0.25:
+                        # two planes a few thousandths of a degree from (anti)parallel: a high-index neighbour of h1
+                        e = np.zeros(3); e[ctx.rng.randrange(3)] = 1.0
+                        h2 = ctx.rng.choice([1.0, -1.0]) * (ctx.rng.choice([300.0, 5000.0, 40000.0]) * h1 + e)
                     d = cr.get_hkl_plane_distance(tuple(h1))
                     dref = 1 / math.sqrt(h1 @ Gi @ h1)
                     ang = cr.get_hkl_plane_angle(tuple(h1), tuple(h2))
